@@ -20,7 +20,7 @@ let find_def (defs : tdef list) (nm : string) : tdef option =
   List.fold_left (fun acc d -> if implode d.td_name = nm then Some d else acc) None defs
 
 let round_trip (text : string) (qs : tdef list) : string =
-  let line i d = "\ntype Rt" ^ string_of_int i ^ " = " ^ implode (mode_short (mode_of d.td_body)) ^ " " ^ implode (print_type d.td_body) in
+  let line i d = "\ntype Rt" ^ string_of_int i ^ " = " ^ implode (mode_short (mode_of d.td_body)) ^ " " ^ implode (m_print_type d.td_body) in
   let all = text ^ String.concat "" (List.mapi line qs) in
   let judge defs i d =
     match find_def defs ("Rt" ^ string_of_int i) with
@@ -45,11 +45,20 @@ let do_eq (txt : string) : string =
     let n = List.length qs in
     let bodies = List.map (fun d -> d.td_body) qs in
     let names = List.map (fun d -> TName (d.td_name, d.td_mode)) qs in
-    let fuel = fuel_of (universe defs (bodies @ names)) in
-    let matrix l = String.concat "" (List.concat_map (fun a -> List.map (fun b -> bit_of (equal_type_in fuel defs a b)) l) l) in
-    let strs = List.map (fun t -> hex (implode (print_type t)) ^ ":" ^ hex (implode (print_with_modality t)) ^ ":" ^ hex (implode (print_outer t))) bodies in
+    let matrix l = String.concat "" (List.concat_map (fun a -> List.map (fun b -> bit_of (m_equal_type defs a b)) l) l) in
+    let strs = List.map (fun t -> hex (implode (m_print_type t)) ^ ":" ^ hex (implode (m_print_with_modality t)) ^ ":" ^ hex (implode (m_print_outer t)) ^ ":" ^ hex (implode (dump_type t))) bodies in
     "OK\t" ^ string_of_int n ^ "\t" ^ matrix bodies ^ "\t" ^ matrix names ^ "\t" ^ String.concat " " strs ^ "\t" ^ round_trip txt qs
-    ^ "\tWF=" ^ (if wf_env defs then "1" else "0")
+    ^ "\tWF=" ^ (if m_wf_env defs then "1" else "0")
+
+let replace_all (s : string) (a : string) (b : string) : string =
+  let la = String.length a in
+  let buf = Buffer.create (String.length s) in
+  let i = ref 0 in
+  while !i < String.length s do
+    if !i + la <= String.length s && String.sub s !i la = a then (Buffer.add_string buf b; i := !i + la)
+    else (Buffer.add_char buf s.[!i]; incr i)
+  done; Buffer.contents buf
+let no_pol (d : char list) : string = replace_all (replace_all (implode d) " + _)" " _ _)") " - _)" " _ _)"
 
 let do_formrt (txt : string) : string =
   match parse_string (explode txt) with
@@ -58,10 +67,10 @@ let do_formrt (txt : string) : string =
   | PHang _ -> "HANG"
   | POk p ->
     let one pr =
-      let printed = implode (print_form pr.pr_body) in
+      let printed = implode (m_print_form pr.pr_body) in
       let r = match parse_string (explode ("prc[rtprov] = " ^ printed)) with
         | POk q -> (match q.p_procs with
-            | [pr2] -> if dump_form false pr2.pr_body = dump_form false pr.pr_body then "1" else "0"
+            | [pr2] -> if no_pol (dump_form false pr2.pr_body) = no_pol (dump_form false pr.pr_body) then "1" else "0"
             | _ -> "E")
         | _ -> "E" in
       (r, hex printed) in
